@@ -48,7 +48,7 @@ class Lock:
         self.f.close()
 
 
-def build_go():
+def build_go(race=False):
     """(Re)build translator and harness from the current trees. Go's build cache makes this cheap."""
     os.makedirs(os.path.join(WORK, "bin"), exist_ok=True)
     shutil.copyfile(os.path.join(REPO, "go.sum"), os.path.join(HARNESS, "go.sum"))
@@ -58,6 +58,12 @@ def build_go():
     rc, out = sh(["go", "build", "-tags", "verif", "-o", os.path.join(WORK, "bin", "iclh"), "./iclh"], cwd=HARNESS, env=GOENV)
     if rc != 0:
         return False, "harness build against /repo (tag verif) failed:\n" + out
+    racebin = os.path.join(WORK, "bin", "iclh-race")
+    if race:
+        # the same harness with the race detector (C12's concurrent load; a search aid, needs cgo)
+        rc, out = sh(["go", "build", "-race", "-tags", "verif", "-o", racebin, "./iclh"], cwd=HARNESS, env=dict(GOENV, CGO_ENABLED="1"))
+        if rc != 0 and os.path.exists(racebin):
+            os.remove(racebin)
     return True, ""
 
 
@@ -197,7 +203,7 @@ def main():
     args = sys.argv[1:]
     if args and args[0] == "--setup":
         with Lock():
-            ok, msg = build_go()
+            ok, msg = build_go(race=True)
             if not ok:
                 print(msg); sys.exit(1)
             ok, msg, _ = regenerate()
@@ -222,7 +228,7 @@ def main():
     os.makedirs(os.path.dirname(evpath), exist_ok=True)
     violations, known_lines, notes = [], [], []
     with Lock():
-        ok, msg = build_go()
+        ok, msg = build_go(race=(prop == "C12"))
         if not ok:
             # /repo no longer builds with the hooks: nothing can be checked
             print(msg)
